@@ -132,11 +132,7 @@ def fexec (env : Nat → R) (recs : Array (Rec R)) (tape : Array (Op R)) :
   | .arithNum .div a c => ok (fUnary tape (gr recs a) (Division.function · c) (Division.dx · c))
   | .swapped .sub c a => ok (fUnary tape (gr recs a) (Subtraction.function c) (Subtraction.dy c))
   | .swapped .div c a => ok (fUnary tape (gr recs a) (Division.function c) (Division.dy c))
-  | .neg a =>
-    -- a constant is negated directly, a variable is `0 - x`
-    match (gr recs a).history with
-    | none => (tape, .ok (Rec.constant (-(gr recs a).number)))
-    | some _ => ok (fUnary tape (gr recs a) (Subtraction.function 0) (Subtraction.dy 0))
+  | .neg a => ok (fUnary tape (gr recs a) (fun x => -x) (fun _ => -1))
   | .sum as => fSum tape (as.map (gr recs))
   | .real .sin a => ok (fUnary tape (gr recs a) Sine.function Sine.dx)
   | .real .cos a => ok (fUnary tape (gr recs a) Cosine.function Cosine.dx)
